@@ -12,6 +12,7 @@
    every configuration without include declarations. *)
 From BT Require Import Base.ListX AttDb.AttDbModel AttDb.AttDbSpec AttDb.AttDbProofs AttDb.AttDbExamples
   NQueue.NQueueModel AttSrv.AttSrvModel AttSrv.AttSrvProofsC04.
+From BT Require AttSrv.AttSrvSpecC02 AttSrv.AttSrvNoFault AttSrv.AttSrvProofsC04Disc.
 Local Open Scope N_scope.
 
 (* ---- (a) handle_by_index over all indices is the assignment; non-zero, strictly increasing *)
@@ -169,7 +170,7 @@ Proof. vm_compute. reflexivity. Qed.
    Type, Read By Group Type or Find By Type Value response names a handle of [assign cfg] whose declared
    attribute is the one the entry describes (type; declaration value with the assigned value handle; group
    end and service uuid).
-   NOT PROVED for the model (monitored on the implementation and tied, see docs/C04.md): the statement is *)
+   The full statement (all four request kinds, any request) is NOT proved; it is *)
 Definition C04_reported_handles_full : Prop :=
   forall c st cid pdu n st' rs,
     wf c -> no_includes c ->
@@ -181,6 +182,45 @@ Definition C04_reported_handles_full : Prop :=
    `fixed_handles` (characteristic discovery over gaps, at MTU 65), and it rejects the response of the
    seeded regression "later tuples report first_handle + (index - first_index)": the declaration at
    handle 9 reported as 7, the one at 20 as 10. *)
+(* PROVED, per request kind (C04_reported_handles_partial_...), for every wf configuration without
+   include_service<>, every state with a live connection (hence every reachable state), every out_size / MTU
+   and every well formed request of the kind (bytes < 256, 1 <= starting handle <= ending handle); built on
+   att-disc's byte-exact response theorems and the C04 handle theorems (AttSrv/AttSrvProofsC04Disc.v):
+     Read By Group Type <<Primary Service>>, Find By Type Value <<Primary Service>>, Find Information (the
+     latter additionally without the marker uuid 0x0001).
+   NOT PROVED: Read By Type (att-disc's theorem for it constrains the reported handles only, not the
+   declaration values the clause also checks) and requests of other shapes (they are answered with
+   Error Responses, which the clause does not judge; not derived formally here). *)
+Theorem C04_reported_handles_partial_read_by_group_type :
+  forall c st cid n st' rs k a0 a1 x0 x1,
+    wf c -> no_includes c -> get_conn st cid = Some k ->
+    a0 < 256 -> a1 < 256 -> x0 < 256 -> x1 < 256 ->
+    1 <= AttSrvSpecC02.w16 a0 a1 -> AttSrvSpecC02.w16 a0 a1 <= AttSrvSpecC02.w16 x0 x1 ->
+    att_input c st cid [16; a0; a1; x0; x1; 0; 40] n = Some (st', rs) ->
+    check_discovery c [16; a0; a1; x0; x1; 0; 40] rs = Ok.
+Proof. exact AttSrvProofsC04Disc.read_by_group_type_reports_assigned. Qed.
+Print Assumptions C04_reported_handles_partial_read_by_group_type.
+
+Theorem C04_reported_handles_partial_find_by_type_value :
+  forall c st cid n st' rs k pdu lo hi value,
+    wf c -> no_includes c -> get_conn st cid = Some k ->
+    forallb byte_ok value = true -> rd pdu 0 = Some 6 -> (len pdu = 9 \/ len pdu = 23) ->
+    rd16 pdu 1 = Some lo -> rd16 pdu 3 = Some hi -> rd16 pdu 5 = Some uuid_primary_service ->
+    slice pdu 7 (len pdu) = Some value -> 1 <= lo -> lo <= hi ->
+    att_input c st cid pdu n = Some (st', rs) -> check_discovery c pdu rs = Ok.
+Proof. exact AttSrvProofsC04Disc.find_by_type_value_reports_assigned. Qed.
+Print Assumptions C04_reported_handles_partial_find_by_type_value.
+
+Theorem C04_reported_handles_partial_find_information :
+  forall c st cid n st' rs k a0 a1 x0 x1,
+    wf c -> no_includes c -> AttSrvNoFault.no_marker_uuids c -> get_conn st cid = Some k ->
+    a0 < 256 -> a1 < 256 -> x0 < 256 -> x1 < 256 ->
+    1 <= AttSrvSpecC02.w16 a0 a1 -> AttSrvSpecC02.w16 a0 a1 <= AttSrvSpecC02.w16 x0 x1 ->
+    att_input c st cid [4; a0; a1; x0; x1] n = Some (st', rs) ->
+    check_discovery c [4; a0; a1; x0; x1] rs = Ok.
+Proof. exact AttSrvProofsC04Disc.find_information_reports_assigned. Qed.
+Print Assumptions C04_reported_handles_partial_find_information.
+
 Example C04_reported_handles_model_accepted :
   let c := cfg_fixed_handles in
   forallb (fun pdu => match att_input c (srv_init c) O pdu 65 with
